@@ -27,6 +27,18 @@ def is_int(ty):
     return ty in INT_BITS or ty == "int?"
 
 
+class ListTy(tuple):
+    """the type of a list value: equal to ("bytes",) everywhere, plus the element type (u8 by default)"""
+    def __new__(cls, elem):
+        o = tuple.__new__(cls, ("bytes",))
+        o.elem = elem
+        return o
+
+
+def elem_of(ty):
+    return getattr(ty, "elem", "u8")
+
+
 class V:
     def __init__(self, code, ty, lo=None, hi=None, var=None, tf=(), ff=(), opt=None):
         self.code, self.ty, self.lo, self.hi, self.var = code, ty, lo, hi, var
@@ -174,7 +186,7 @@ def coq_type(ty):
     if isinstance(ty, tuple):
         if ty[0] == "opt":
             return "option %s" % paren(coq_type(ty[1]))
-        if ty[0] == "bytes":
+        if ty[0] in ("bytes", "str"):
             return "list N"
         if ty[0] in ("unit", "unitv"):
             return "unit"
@@ -347,7 +359,7 @@ class Translator:
                             fty = self.rtype(ft, ix, gens)
                         except Untranslatable:
                             continue
-                        if erase(fty) in INT_BITS or fty == "bool" or fty == ("bytes",) or (mode[0] == "selfpair" and f in mode[1]):
+                        if erase(fty) in INT_BITS or fty == "bool" or fty == ("bytes",) or fty == ("str",) or (mode[0] == "selfpair" and f in mode[1]):
                             g = ctx.fresh("self_" + f)
                             env["self." + f] = self.param_value(g, fty, "self." + f)
                             params.append((g, coq_type(erase(fty)), fty))
@@ -509,7 +521,8 @@ class Translator:
             parts = split_commas(toks[1:-1])
             return ("tuple", tuple(self.rtype(t, ix, gens) for t in parts))
         if toks[0] == ("op", "["):
-            return ("bytes",)
+            el = toks[1][1] if len(toks) > 1 and toks[1][0] == "id" else "u8"
+            return ListTy(el) if el in INT_BITS else ("bytes",)
         while len(toks) >= 3 and toks[0][0] == "id" and toks[1] == ("op", "::") and toks[0][1] not in gens:
             toks = toks[2:]
         k, v = toks[0]
@@ -523,7 +536,12 @@ class Translator:
             if len(toks) == 1:
                 return ("aut", v)
         if v == "Vec":
-            return ("bytes",)
+            el = toks[2][1] if len(toks) > 2 and toks[2][0] == "id" else "u8"
+            return ListTy(el) if el in INT_BITS else ("bytes",)
+        if v in ("String", "str"):
+            return ("str",)
+        if v == "char":
+            return "u32"
         if v == "Option":
             return ("opt", self.rtype(toks[2:-1], ix, gens))
         for x in idxs:
@@ -622,7 +640,7 @@ class Translator:
             return V(g, "bool", var=var)
         if isinstance(e, tuple) and e[0] == "opt":
             return V(g, e, var=var)
-        if e == ("bytes",):
+        if e == ("bytes",) or e == ("str",):
             return V(g, e, 0, tmax("usize"), var=var)
         if isinstance(e, tuple) and e[0] in ("coq", "tuple", "enum", "unitv", "aut"):
             return V(g, e, var=var)
@@ -779,6 +797,16 @@ class Translator:
                 if nm in ("panic", "unreachable", "unimplemented", "todo"):
                     return ("panic",)
                 raise Untranslatable("macro %s!" % nm)
+            if e[0] == "method" and e[1] == "push" and len(e[3]) == 1 and e[2][0] == "path" and len(e[2][1]) == 1 and \
+                    e[2][1][0] in env and env[e[2][1][0]].ty == ("bytes",):
+                cur = env[e[2][1][0]]
+                el = elem_of(cur.ty)
+                pre, v = self.expr(e[3][0], env, ctx, el)
+                v = self.coerce(v, el)
+                if erase(v.ty) != el:
+                    raise Untranslatable("push of a %s" % (v.ty,))
+                nv = V("(%s ++ [%s])" % (cur.code, v.code), cur.ty, cur.lo + 1, min(cur.hi + 1, tmax("usize")))
+                return wrap(pre, self.bind_local(e[2][1][0], nv, env, ctx, rest, declare=False))
             if e[0] == "method" and e[2][0] == "path" and len(e[2][1]) == 1 and e[2][1][0] in env and \
                     isinstance(env[e[2][1][0]].ty, tuple) and env[e[2][1][0]].ty[0] == "nt":
                 # a setter called on a local newtype value: the local takes the returned state
@@ -838,7 +866,7 @@ class Translator:
                     except Untranslatable:
                         pass
                 if x and x[0] == "expr" and x[1][0] == "method" and x[1][2][0] == "path" and len(x[1][2][1]) == 1 and x[1][2][1][0] in env \
-                        and x[1][1].startswith("set_") and x[1][2][1][0] not in out:
+                        and (x[1][1].startswith("set_") or x[1][1] == "push") and x[1][2][1][0] not in out:
                     out.append(x[1][2][1][0])
                 if x and x[0] in ("return",):
                     raise Untranslatable("return inside a loop")
@@ -961,17 +989,18 @@ class Translator:
                 if len(pat) != 2:
                     raise Untranslatable("enumerate pattern")
                 lst = "(src_enumerate %s)" % code
-                elems = [(pat[0], V(None, "usize", 0, max(0, hi - 1))), (pat[1], V(None, "u8", 0, 255))]
+                elems = [(pat[0], V(None, "usize", 0, max(0, hi - 1))), (pat[1], V(None, elem_of(b.ty), 0, tmax(elem_of(b.ty))))]
             else:
                 if len(pat) != 1:
                     raise Untranslatable("loop pattern")
                 lst = code
-                elems = [(pat[0], V(None, "u8", 0, 255))]
+                elems = [(pat[0], V(None, elem_of(b.ty), 0, tmax(elem_of(b.ty))))]
         state = self.assigned_names(blk, env)
         if not state:
             # nothing outside changes: only possible panics of the body matter; not supported
             raise Untranslatable("loop without accumulators")
         # ---- the body as a function of (state, element); integer accumulators are widened to their type
+        widen = set()
         def attempt(types):
             e2 = dict(env)
             e2["%decl"] = frozenset()
@@ -980,7 +1009,9 @@ class Translator:
                 g = ctx.fresh(key.replace("self.", "self"))
                 snames.append(g)
                 cur = env[key]
-                if ty == ("bytes",):
+                if ty == ("bytes",) and key in widen:
+                    e2[key] = V(g, ty, 0, tmax("usize"), var=key)
+                elif ty == ("bytes",):
                     e2[key] = V(g, ty, cur.lo, cur.hi, var=key)
                 elif erase(ty) in INT_BITS:
                     e2[key] = V(g, ty, 0, tmax(erase(ty)), var=key)
@@ -998,7 +1029,8 @@ class Translator:
                 for key, v, ty in zip(state, vs, types):
                     if erase(v.ty) != erase(ty) and v.ty != "int?":
                         raise Untranslatable("accumulator %s changes its type" % key)
-                    if ty == ("bytes",) and (v.lo, v.hi) != (env[key].lo, env[key].hi):
+                    if ty == ("bytes",) and key not in widen and (v.lo, v.hi) != (env[key].lo, env[key].hi):
+                        widen.add(key)
                         raise Untranslatable("accumulator %s changes its length" % key)
                 return ("ret", "(%s)" % ", ".join(v.code for v in vs) if len(vs) > 1 else vs[0].code)
             body = self.stmts(blk[0], blk[1], e2, ctx, ("cont", at_end))
@@ -1013,7 +1045,7 @@ class Translator:
             for t in pref:
                 cands.append([t if i in flex else b for i, b in enumerate(base)])
         last = None
-        for types in cands:
+        for types in cands + cands:
             try:
                 snames, enames, body = attempt(types)
                 break
@@ -1034,7 +1066,9 @@ class Translator:
             g = ctx.fresh(key.replace("self.", "self"))
             outs.append(g)
             cur = env[key]
-            if ty == ("bytes",):
+            if ty == ("bytes",) and key in widen:
+                env2[key] = V(g, ty, 0, tmax("usize"), var=key)
+            elif ty == ("bytes",):
                 only_elem = True
                 env2[key] = V(g, ty, cur.lo, cur.hi, var=key)
             elif erase(ty) in INT_BITS:
@@ -1409,6 +1443,8 @@ class Translator:
             comp = self.tail(e, env, ctx, ("value", col))
             ty, lo, hi = self.join(col["vals"], exp)
             return self.comp_value([], comp, ty, lo, hi, ctx)
+        if k == "macro" and e[1] == "vec":
+            return self.expr(P([("op", "[")] + e[2] + [("op", "]"), ("eof", None)]).expr(), env, ctx, exp)
         if k == "macro":
             raise Untranslatable("macro %s! used as a value" % e[1])
         if k == "slice":
@@ -1434,14 +1470,18 @@ class Translator:
             return [], V("(repeatN %s %d)" % (x.code, n.const), ("bytes",), n.const, n.const)
         if k == "array":
             pre, items = [], []
+            el = exp.elem if isinstance(exp, ListTy) else None
             for it in e[1]:
-                p2, x = self.expr(it, env, ctx, "u8")
-                x = self.coerce(x, "u8")
-                if erase(x.ty) != "u8":
-                    raise Untranslatable("array of non-bytes")
+                p2, x = self.expr(it, env, ctx, el or None)
+                if x.ty == "int?":
+                    x = self.coerce(x, el or "u8")
+                if el is None:
+                    el = erase(x.ty)
+                if erase(x.ty) != el or el not in INT_BITS:
+                    raise Untranslatable("array elements of type %s" % (x.ty,))
                 pre += p2
                 items.append(x.code)
-            return pre, V("[%s]" % "; ".join(items), ("bytes",), len(items), len(items))
+            return pre, V("[%s]" % "; ".join(items), ListTy(el or "u8"), len(items), len(items))
         if k == "tuple":
             pre, vs = [], []
             for it in e[1]:
@@ -1484,11 +1524,11 @@ class Translator:
                 pre = pre + p2
         code = b.code if hi is n else "(firstn (N.to_nat %s) %s)" % (hi.code, b.code)
         if lo is None or lo.const == 0:
-            return pre, V(code, ("bytes",), hi.lo, hi.hi)
+            return pre, V(code, b.ty, hi.lo, hi.hi)
         if lo.hi > hi.lo:
             p2, lo = self.chk("(%s <=? %s)" % (lo.code, hi.code), lo.code, "usize", lo.lo, min(lo.hi, hi.hi), ctx)
             pre = pre + p2
-        return pre, V("(skipn (N.to_nat %s) %s)" % (lo.code, code), ("bytes",), max(0, hi.lo - lo.hi), hi.hi - lo.lo)
+        return pre, V("(skipn (N.to_nat %s) %s)" % (lo.code, code), b.ty, max(0, hi.lo - lo.hi), hi.hi - lo.lo)
 
     def typed(self, code, ty):
         e = erase(ty)
@@ -1869,7 +1909,8 @@ class Translator:
             if i.hi >= n.lo:
                 p3, i = self.chk("(%s <? %s)" % (i.code, n.code), i.code, "usize", i.lo, min(i.hi, max(0, n.hi - 1)), ctx)
                 pre = pre + p3
-            return pre, V("(List.nth (N.to_nat %s) %s 0)" % (i.code, b.code), "u8", 0, 255)
+            el = elem_of(b.ty)
+            return pre, V("(List.nth (N.to_nat %s) %s 0)" % (i.code, b.code), el, 0, tmax(el))
         raise Untranslatable("indexing (a read of the data is outside the subset)")
 
     def call_fn(self, f, argvals, argexprs, env, ctx):
@@ -2053,6 +2094,13 @@ class Translator:
                 return pre, v
             t = ctx.fresh("t")
             return pre + [("bind", t, ("raw", code))], self.typed(t, f.rty)
+        if name == "collect" and not args and recv[0] == "paren" and recv[1][0] == "range":
+            recv = recv[1]
+        if name == "collect" and not args and recv[0] == "range":
+            pa, a = self.expr(recv[1], env, ctx, "usize")
+            pb, b = self.expr(recv[2], env, ctx, "usize")
+            a, b = self.coerce(a, "usize"), self.coerce(b, "usize")
+            return pa + pb, V("(src_range %s %s)" % (a.code, b.code), ListTy("usize"), max(0, b.lo - a.hi), max(0, b.hi - a.lo))
         if name in ("cmp", "partial_cmp") and len(args) == 1:
             pa, a = self.expr(recv, env, ctx)
             pb, b = self.expr(args[0], env, ctx, erase(a.ty) if a.ty in INT_BITS else None)
@@ -2101,7 +2149,19 @@ class Translator:
                 codes.append(v.code)
             code = "(src_%s %s%s)" % (name, A, "".join(" " + c for c in codes))
             return pre, V(code, sig[name][1])
+        if rt == ("str",):
+            if name == "chars" and not args:
+                return pre, V(r.code, ListTy("u32"), r.lo, r.hi, var=r.var)
+            if name == "len" and not args:
+                return pre, V("(src_utf8_len %s)" % r.code, "usize", 0, tmax("usize"))
+            if name in ("to_owned", "clone", "as_str", "to_string") and not args:
+                return pre, r
+            raise Untranslatable("string method ." + name)
         if rt == ("bytes",):
+            if name == "count" and not args:
+                return pre, self.blen(r)
+            if name == "min" and not args:
+                return pre, V("(src_list_min %s)" % r.code, ("opt", elem_of(rt)))
             if name == "len" and not args:
                 return pre, self.blen(r)
             if name == "is_empty" and not args:
@@ -2117,10 +2177,10 @@ class Translator:
             if name == "get" and len(args) == 1:
                 p2, i = self.expr(args[0], env, ctx, "usize")
                 i = self.coerce(i, "usize")
-                return pre + p2, V("(nth_error %s (N.to_nat %s))" % (r.code, i.code), ("opt", "u8"))
+                return pre + p2, V("(nth_error %s (N.to_nat %s))" % (r.code, i.code), ("opt", elem_of(rt)))
             if name in ("first", "last") and not args:
                 c = "(nth_error %s 0)" % r.code if name == "first" else "(last_opt %s)" % r.code
-                return pre, V(c, ("opt", "u8"))
+                return pre, V(c, ("opt", elem_of(rt)))
             raise Untranslatable("slice method ." + name)
         if isinstance(rt, tuple) and rt[0] == "opt" and name in ("cloned", "copied", "clone") and not args:
             return pre, r
@@ -2173,10 +2233,10 @@ class Translator:
                 return pre, V("(match %s with Some %s => %s | None => %s end)" % (r.code, x, bv.code, d.code), ty, lo, hi)
             if name == "unwrap_or" and len(args) == 1:
                 ety = rt[1]
-                p2, d = self.expr(args[0], env, ctx, ety)
+                p2, d = self.expr(args[0], env, ctx, ety if ety in INT_BITS else None)
                 d = self.coerce(d, ety)
                 x = ctx.fresh("x")
-                return pre + p2, V("(match %s with Some %s => %s | None => %s end)" % (r.code, x, x, d.code), ety, 0, tmax(ety))
+                return pre + p2, self.typed("(match %s with Some %s => %s | None => %s end)" % (r.code, x, x, d.code), ety)
             raise Untranslatable("option method ." + name)
         if rt == "bool":
             raise Untranslatable("bool method ." + name)
